@@ -9906,6 +9906,7 @@ class Parser:
 
         options = []
         while self._curr and not self._match(TokenType.R_PAREN, advance=False):
+            index = self._index
             option = self._parse_var(any_token=True)
             prev = self._prev.text.upper()
 
@@ -9937,6 +9938,10 @@ class Parser:
 
             if sep:
                 self._match(sep)
+
+            if self._index == index:
+                self.raise_error("Unable to parse COPY parameter")
+                break
 
         return options
 
